@@ -245,7 +245,7 @@ func (fx *Fx) builtinCall(st *State, name string, call *ast.CallExpr, spec bool)
 					fx.assumed["unsafe view in "+key+" is transient: "+sp.AllowUnsafe] = true
 				}
 			}
-			fx.note("unsafe.String/unsafe.Slice over StringData/SliceData are read as value conversions (aliasing with the source buffer ignored)")
+			fx.note("unsafe.String/unsafe.Slice over StringData/SliceData are read as value conversions; the aliasing with the source buffer is not modelled, so every such view needs an allowunsafe declaration (why it is transient) in the contract of the function that takes it")
 			return []Val{{T: fx.typeOf(call), S: SStr, X: v.X, Lit: v.Lit}}
 		}
 	}
